@@ -52,6 +52,9 @@ def recipes(ctx: Ctx):
     for ops in K.exhaustive_histories(depth):
         out.append((f"e{i}", {"ops": ops}))
         i += 1
+    for nd in ([70, 130] if not ctx.thorough else [70, 130, 200, 300, 90, 150, 65, 100]):
+        out.append((f"m{i}", {"ops": K.many_devices_history(ctx.rng, nd)}))
+        i += 1
     n_random = 18000 if ctx.thorough else 1200
     for _ in range(n_random):
         n = ctx.rng.randrange(2, 60 if ctx.thorough else 30)
